@@ -217,6 +217,7 @@ CHECKS = {
         units=[
             P("TestC07_SingleOperator", shards=11),
             R("TestC07_Combined", 16000, 400000, shards=16),
+            R("TestC07_RetryCached", 8000, 200000, shards=16),
             F("FuzzC07", "90s"),
         ],
     ),
